@@ -67,6 +67,14 @@ Logged ==
   \/ IsEvent("tok.info.write") /\ DeclareWrite(Ev.p, Ev.total)
   \/ IsEvent("tok.init") /\ StartProc(Ev.p) /\ avail'[Ev.p] = Ev.available /\ info.total = Ev.total
   \/ IsEvent("tok.evt.info") /\ OnInfo(Ev.p) /\ info'.ptotal[Ev.p] = Ev.total /\ Ev.delta = info.total - info.ptotal[Ev.p]
+  (* ... the observer exists from the call that watches the directory on, the event tok.watching is logged after the count that
+     follows: a modification of token.info can be handled in between (that handler takes no lock); what it computes is
+     replaced by that count *)
+  \/ /\ IsEvent("tok.evt.info") /\ alive[Ev.p] /\ info.started[Ev.p] = "counted"
+     /\ Ev.delta = info.total - info.ptotal[Ev.p]
+     /\ info' = [info EXCEPT !.ptotal[Ev.p] = info.total, !.pending[Ev.p] = FALSE]
+     /\ avail' = [avail EXCEPT ![Ev.p] = @ + (info.total - info.ptotal[Ev.p])]
+     /\ UNCHANGED <<files, ipc, cs, alive, obs, cache, watching, pend, jobst, dstat, notify, reclaiming, wl>>
   \/ IsEvent("tok.watching") /\ StartWatch(Ev.p) /\ (FixF27 => avail'[Ev.p] = Ev.available)
   \/ IsEvent("h.start") /\ Stutter
   \/ IsEvent("tok.init.error") /\ StartFails(Ev.p)
